@@ -34,6 +34,7 @@ class Scenario:
     reply_void: Optional[bool] = None      # is the reply type of the scenario's event `void`?
     port_roots: Dict[str, str] = field(default_factory=dict)   # symbol root -> 'provides' | 'requires'
     assume_events: bool = True
+    known_none: Dict[tuple, bool] = field(default_factory=dict)   # (symbol root, path) -> is None (facts established elsewhere)
 
     # -- deciding conditions --------------------------------------------------------------------------------------
     def decide(self, c: Cond) -> Optional[bool]:
@@ -81,6 +82,12 @@ class Scenario:
             return res if c.op == 'eq' else not res
         if c.op in ('truthy', 'is_none', 'not_none'):
             a = c.args[0]
+            if isinstance(a, Sym) and (a.root.split('#')[0], tuple(a.path)) in self.known_none:
+                none_ = self.known_none[(a.root.split('#')[0], tuple(a.path))]
+                if c.op == 'is_none':
+                    return none_
+                if c.op == 'not_none' or none_:
+                    return not none_
             if isinstance(a, Sym) and a.path and a.path[-1] == 'multiclient' and k is not None:
                 has = k['multiclient']
                 return has if c.op in ('truthy', 'not_none') else not has
